@@ -346,3 +346,32 @@ func sysSplitDecls(p *Pkg, f *File) ([]edit, map[string][]byte) {
 	}
 	return eds, map[string][]byte{"zz_moved_decls.go": []byte(b.String())}
 }
+
+// ---------- unicode-strings ----------
+// Every interpreted string literal that is an operand of an expression (not an import path, not a struct tag) gets 45
+// two-byte letters appended: code quoted by a message is then longer than any fixed byte budget and full of multi-byte runes.
+func sysUnicodeStrings(f *File) []edit {
+	skip := map[*ast.BasicLit]bool{}
+	ast.Inspect(f.AST, func(n ast.Node) bool {
+		switch x := n.(type) {
+		case *ast.ImportSpec:
+			skip[x.Path] = true
+		case *ast.Field:
+			if x.Tag != nil {
+				skip[x.Tag] = true
+			}
+		}
+		return true
+	})
+	var eds []edit
+	ast.Inspect(f.AST, func(n ast.Node) bool {
+		lit, ok := n.(*ast.BasicLit)
+		if !ok || lit.Kind != token.STRING || skip[lit] || !strings.HasPrefix(lit.Value, "\"") {
+			return true
+		}
+		end := off(lit.End()) - 1
+		eds = append(eds, edit{end, end, strings.Repeat("Ж", 45)})
+		return true
+	})
+	return eds
+}
